@@ -78,9 +78,10 @@ struct PairIndex {
 // Build the real automaton from the model, symbols are the integer ids (+ optional offset).
 inline VATA::ExplicitTreeAut build(const ref::TA& A, bool reverseOrder = false) {
   VATA::ExplicitTreeAut x;
-  if (!reverseOrder) for (auto& r : A.rules) x.AddTransition(r.ch, r.sym, r.par);
-  else for (auto it = A.rules.rbegin(); it != A.rules.rend(); ++it) x.AddTransition(it->ch, it->sym, it->par);
-  for (auto f : A.finals) x.SetStateFinal(f);
+  // reverseOrder: rules in descending order AND the final states declared first, in descending order (the final-state container is a hash set whose
+  // iteration order is its history: seed C06c needed a rule-less final state declared before a rule-owning one)
+  if (!reverseOrder) { for (auto& r : A.rules) x.AddTransition(r.ch, r.sym, r.par); for (auto f : A.finals) x.SetStateFinal(f); }
+  else { for (auto it = A.finals.rbegin(); it != A.finals.rend(); ++it) x.SetStateFinal(*it); for (auto it = A.rules.rbegin(); it != A.rules.rend(); ++it) x.AddTransition(it->ch, it->sym, it->par); }
   return x;
 }
 inline ref::TA readBack(const VATA::ExplicitTreeAut& x) {
